@@ -1277,7 +1277,15 @@ class CSemantics:
         to int type before performing the operation.
         """
         if expr.typ.is_promotable:
-            expr = self.coerce(expr, self.int_type)
+            # An int is taken if it can represent all values of the
+            # original type, otherwise an unsigned int (think of
+            # unsigned short on a target with 16 bits int).
+            if self.context.limit_max(expr.typ) <= self.context.limit_max(
+                self.int_type
+            ):
+                expr = self.coerce(expr, self.int_type)
+            else:
+                expr = self.coerce(expr, self.get_type(["unsigned", "int"]))
         return expr
 
     def equal_types(self, typ1, typ2):
@@ -1326,7 +1334,38 @@ class CSemantics:
         The common type is a type they can both be cast to.
         """
 
+        if typ1.is_integer and typ2.is_integer:
+            return self._get_common_integer_type(typ1, typ2, location)
         return max([typ1, typ2], key=lambda t: self._get_rank(t, location))
+
+    def _get_common_integer_type(self, typ1, typ2, location):
+        """The usual arithmetic conversions on integer types (C11 6.3.1.8)."""
+        rank1 = self._get_rank(typ1, location) // 10
+        rank2 = self._get_rank(typ2, location) // 10
+        if typ1.is_signed == typ2.is_signed:
+            return typ1 if rank1 >= rank2 else typ2
+        if typ1.is_signed:
+            signed_typ, signed_rank = typ1, rank1
+            unsigned_typ, unsigned_rank = typ2, rank2
+        else:
+            signed_typ, signed_rank = typ2, rank2
+            unsigned_typ, unsigned_rank = typ1, rank1
+        if unsigned_rank >= signed_rank:
+            return unsigned_typ
+        if self.context.limit_max(signed_typ) >= self.context.limit_max(
+            unsigned_typ
+        ):
+            # The signed type can represent all values of the unsigned one
+            return signed_typ
+        # Otherwise: the unsigned type corresponding to the signed type
+        unsigned_ids = {
+            types.BasicType.CHAR: types.BasicType.UCHAR,
+            types.BasicType.SHORT: types.BasicType.USHORT,
+            types.BasicType.INT: types.BasicType.UINT,
+            types.BasicType.LONG: types.BasicType.ULONG,
+            types.BasicType.LONGLONG: types.BasicType.ULONGLONG,
+        }
+        return types.BasicType(unsigned_ids[signed_typ.type_id])
 
     basic_ranks = {
         types.BasicType.LONGDOUBLE: 110,
